@@ -12,7 +12,7 @@ from vmon import bits, contracts
 
 LEVEL = "exploration"
 SHARDS = {"quick": 8, "thorough": 16}
-MUST = ["read_as_int.evaluations", "read_as_bytes.evaluations", "_extract_bits.evaluations", "insitu.reads"]
+MUST = ["read_as_int.evaluations", "read_as_bytes.evaluations", "_extract_bits.evaluations", "insitu.reads", "wide.reads"]
 RULE = ("every read_as_int/read_as_bytes/_extract_bits call made by the workload is checked by a postcondition "
         "against int(bitstring[p:p+n],2); workload = all (p,n) with p+n<=48 over 24 structured 6-byte buffers "
         "(exhaustive), all 64 (p%8,n%8) classes at widths up to 4096 bytes, seeded random reads, sequential "
@@ -103,6 +103,31 @@ def run(ctx):
             ctx.sample({"buffer": buf[:16], "len": ln, "reads": chain})
     ctx.count("evaluations", done)
 
+    # ---- 3b. very wide reads (a binary field may span a whole 65542-byte packet) mixed with narrow reads, on one
+    #          object and across objects, in both orders: widths around multiples of 65536 bits and beyond ---------------
+    big = bytes(rng.getrandbits(8) for _ in range(70_000))
+    wides = [65535, 65536, 65537, 65549, 2 * 65536 + 5, 3 * 65536 + 13, 8 * 65536 - 1, 524_000 + rng.randrange(100)]
+    w = 0
+    for n in wides:
+        for off in range(8):
+            w += 1
+            if not ctx.mine(w):
+                continue
+            narrow = [(o2, n2) for o2 in sorted({off, off | (n >> 16) & 7, (off + 3) % 8}) for n2 in sorted({n % 65536, 13, 1, (n % 65536) + 1} - {0})]
+            for order in (0, 1):
+                seqs = ([(off, n)] + narrow) if order == 0 else (narrow + [(off, n)])
+                for meth in ("read_as_int", "read_as_bytes"):
+                    r = RPD(big)
+                    for o_, n_ in seqs:
+                        if o_ + n_ > 8 * len(big):
+                            continue
+                        r.pos = o_
+                        getattr(r, meth)(n_)
+                        fresh = RPD(big[:(o_ + n_ + 7) // 8 + 1])
+                        fresh.pos = o_
+                        getattr(fresh, meth)(n_)
+                        ctx.count("evaluations", 2)
+                        ctx.count("wide.reads")
     # ---- 4. in situ: the real decoder's own reads -------------------------------------------------
     insitu(ctx)
     # ---- 5. the repository's own tests with the contracts armed -------------------------------------
